@@ -44,6 +44,8 @@ type lruWorld struct {
 	hist    []string
 	removed []string // lru.removed events since last drain (cross-check)
 	remMu   sync.Mutex
+	px      *lib.FakeProxy // nil: no backend
+	srv     *lib.Server    // nil: disk API only
 }
 
 func (w *lruWorld) log(f string, a ...any) {
@@ -172,11 +174,17 @@ func (w *lruWorld) judge(op string, before, after snapInfo, written string, L in
 		if d, is := after.raw[written]; is && lib.RoundUp4k(d) > need {
 			need = lib.RoundUp4k(d)
 		}
-		if before.total-sumP+need <= w.max {
-			w.r.Violation("C05:evicted-more-than-needed:"+op, fmt.Sprintf("accounted %d, item needs %d (larger of logical %d and on-disk), max %d: evicting %v was enough, yet %s went too",
-				before.total, need, L, w.max, diff(E, newestEvicted), newestEvicted), w.detail(E))
+		// accounted size as the statement defines it for a sequential history (nothing in flight): the indexed
+		// entries' rounded on-disk sizes, summed by the harness - not the cache's own counter
+		var A int64
+		for _, v := range before.sizes {
+			A += v
 		}
-		w.r.Count("boundary.slack_blocks." + fmt.Sprint(min((before.total-sumP+need-w.max+4095)/4096, 3)))
+		if A-sumP+need <= w.max {
+			w.r.Violation("C05:evicted-more-than-needed:"+op, fmt.Sprintf("entries account for %d (cache's own counter: %d), item needs %d (larger of logical %d and on-disk), max %d: evicting %v was enough, yet %s went too",
+				A, before.total, need, L, w.max, diff(E, newestEvicted), newestEvicted), w.detail(E))
+		}
+		w.r.Count("boundary.slack_blocks." + fmt.Sprint(min((A-sumP+need-w.max+4095)/4096, 3)))
 	}
 	if written != "" && L <= w.max && len(E) == 0 {
 		w.r.Count("no_eviction." + op)
@@ -200,6 +208,14 @@ func (w *lruWorld) judge(op string, before, after snapInfo, written string, L in
 	for _, k := range E {
 		w.drop(k)
 	}
+}
+
+func sumSizes(s snapInfo) int64 {
+	var t int64
+	for _, v := range s.sizes {
+		t += v
+	}
+	return t
 }
 
 func diff(xs []string, x string) []string {
@@ -277,6 +293,9 @@ func (w *lruWorld) step(rng *rand.Rand) {
 	ctx := context.Background()
 	ops := []string{"put", "put", "put", "put-exact-fit", "put-one-over", "put-ac", "put-raw", "put-ac", "overwrite-cas", "put-badhash", "put-oversize",
 		"get", "get-unknown", "getzstd", "contains", "findmissing", "getvalidated", "refresh-oldest", "refresh-oldest", "contains-wrongsize", "get-miss"}
+	if w.px != nil {
+		ops = append(ops, "fetch", "fetch", "fetch-unknown", "fetch-miss", "fetch-miss", "fetch-ac")
+	}
 	op := ops[rng.IntN(len(ops))]
 	switch op {
 	case "put", "overwrite-cas":
@@ -345,7 +364,13 @@ func (w *lruWorld) step(rng *rand.Rand) {
 			if rc != nil {
 				_ = rc.Close()
 			}
-			w.judge("get-miss", before, w.snap(), "", 0, false)
+			if w.px != nil {
+				// with a backend a sized local miss is an attempted fetch of 123 bytes: room may be made for it
+				lib.WaitEvictionsDrained(w.c, 0)
+				w.judge("get-miss-backend", before, w.snap(), "cas/"+h, 123, false)
+			} else {
+				w.judge("get-miss", before, w.snap(), "", 0, false)
+			}
 			w.r.Count("op.get-miss")
 			return
 		}
@@ -369,9 +394,42 @@ func (w *lruWorld) step(rng *rand.Rand) {
 		if kind != cache.CAS && how == "getzstd" {
 			how = "get"
 		}
+		if w.srv != nil && how != "contains-wrongsize" && rng.IntN(3) != 0 {
+			// the same lookups through the HTTP and gRPC front ends
+			switch kind {
+			case cache.CAS:
+				how = []string{"http-get", "http-get-zstd", "http-head", "grpc-findmissing", "grpc-bsread", "grpc-bsread-zstd", "grpc-batchread"}[rng.IntN(7)]
+			case cache.RAW:
+				how = []string{"http-raw-get", "http-raw-head"}[rng.IntN(2)]
+			}
+		}
 		before := w.snap()
 		hit := false
+		cctx, ccancel := lib.Ctx()
+		defer ccancel()
 		switch how {
+		case "http-get":
+			hit = w.srv.HTTPGet("/cas/"+hash, nil).Status == 200
+		case "http-get-zstd":
+			hit = w.srv.HTTPGet("/cas/"+hash, map[string]string{"Accept-Encoding": "zstd"}).Status == 200
+		case "http-head":
+			hit = w.srv.HTTPHead("/cas/"+hash).Status == 200
+		case "http-raw-get":
+			hit = w.srv.HTTPDo("GET", w.srv.RawURL+"/ac/"+hash, nil, nil).Status == 200
+		case "http-raw-head":
+			hit = w.srv.HTTPDo("HEAD", w.srv.RawURL+"/ac/"+hash, nil, nil).Status == 200
+		case "grpc-findmissing":
+			miss, err := w.srv.FindMissing(cctx, &pb.Digest{Hash: hash, SizeBytes: size})
+			hit = err == nil && len(miss) == 0
+		case "grpc-bsread":
+			_, err := w.srv.BSRead(cctx, lib.ResBlobs(hash, size), 0, 0)
+			hit = err == nil
+		case "grpc-bsread-zstd":
+			_, err := w.srv.BSRead(cctx, lib.ResZstd(hash, size), 0, 0)
+			hit = err == nil
+		case "grpc-batchread":
+			rsp, err := w.srv.CAS.BatchReadBlobs(cctx, &pb.BatchReadBlobsRequest{Digests: []*pb.Digest{{Hash: hash, SizeBytes: size}}})
+			hit = err == nil && len(rsp.Responses) == 1 && rsp.Responses[0].GetStatus().GetCode() == 0
 		case "get", "get-unknown", "getzstd":
 			sz := size
 			if how == "get-unknown" {
@@ -416,6 +474,78 @@ func (w *lruWorld) step(rng *rand.Rand) {
 			// the model believed the key present: a miss here is another property's business (C07/C02); re-synchronise
 			w.resync()
 		}
+	case "fetch", "fetch-unknown", "fetch-miss":
+		// an item that arrives through a backend fetch: a CAS blob of the pool that is not held locally
+		var cands []acctItem
+		for _, c := range w.cas {
+			if !w.has("cas/" + c.hash) {
+				cands = append(cands, c)
+			}
+		}
+		if len(cands) == 0 {
+			return
+		}
+		it := cands[rng.IntN(len(cands))]
+		k := "cas/" + it.hash
+		L := int64(len(it.content))
+		if op == "fetch-miss" {
+			w.px.Delete(cache.CAS, it.hash) // neither here nor there: the attempted fetch ends in a miss
+		} else {
+			w.px.SetBlob(cache.CAS, it.hash, it.content)
+		}
+		sz := L
+		if op == "fetch-unknown" {
+			sz = -1
+		}
+		before := w.snap()
+		var rc io.ReadCloser
+		var err error
+		if rng.IntN(2) == 0 && w.storage == "zstd" {
+			rc, _, err = w.c.GetZstd(ctx, it.hash, sz, 0)
+		} else {
+			rc, _, err = w.c.Get(ctx, cache.CAS, it.hash, sz, 0)
+		}
+		hit := err == nil && rc != nil
+		if rc != nil {
+			_, _ = io.Copy(io.Discard, rc)
+			_ = rc.Close()
+		}
+		lib.WaitEvictionsDrained(w.c, 0)
+		after := w.snap()
+		w.log("%s %s L=%d -> hit=%v err=%v (entries account for %d -> %d)", op, k[:12], L, hit, err, sumSizes(before), sumSizes(after))
+		w.r.Count("op." + op + "." + map[bool]string{true: "hit", false: "nohit"}[hit])
+		w.judge(op, before, after, k, L, false)
+		if _, is := after.sizes[k]; is {
+			w.touch(k)
+		}
+		if op != "fetch-miss" && !hit && err == nil && L+L/100+8192 <= w.max {
+			w.r.Violation("C05:fitting-fetch-missed:"+op, fmt.Sprintf("backend holds %d bytes, cache of %d: local miss was not answered from the backend", L, w.max), w.detail(nil))
+		}
+		w.px.Delete(cache.CAS, it.hash)
+		w.r.Distinct(w.storage, op, lib.SizeClassName(int(L)), len(before.sizes), len(after.sizes) < len(before.sizes))
+	case "fetch-ac":
+		h := lib.RandHash(rng)
+		val := w.makeValidAR(rng)
+		kind := []cache.EntryKind{cache.AC, cache.RAW}[rng.IntN(2)]
+		w.px.SetBlob(kind, h, val)
+		k := cache.LookupKey(kind, h)
+		before := w.snap()
+		rc, _, err := w.c.Get(ctx, kind, h, -1, 0)
+		hit := err == nil && rc != nil
+		if rc != nil {
+			_, _ = io.Copy(io.Discard, rc)
+			_ = rc.Close()
+		}
+		lib.WaitEvictionsDrained(w.c, 0)
+		after := w.snap()
+		w.log("fetch-ac %s L=%d -> hit=%v", k[:12], len(val), hit)
+		w.r.Count("op.fetch-ac." + map[bool]string{true: "hit", false: "nohit"}[hit])
+		w.judge(op, before, after, k, int64(len(val)), false)
+		if _, is := after.sizes[k]; is {
+			w.touch(k)
+			w.acVals[k] = val
+		}
+		w.px.Delete(kind, h)
 	case "findmissing":
 		var ds []*pb.Digest
 		var ks []string
@@ -453,7 +583,39 @@ func (w *lruWorld) step(rng *rand.Rand) {
 		k := acs[rng.IntN(len(acs))]
 		_, hash := splitKey(k)
 		before := w.snap()
-		ar, _, err := w.c.GetValidatedActionResult(ctx, hash)
+		var ar *pb.ActionResult
+		var err error
+		via := "disk"
+		if w.srv != nil && rng.IntN(3) != 0 {
+			via = []string{"grpc", "http-get", "http-head"}[rng.IntN(3)]
+		}
+		cctx, ccancel := lib.Ctx()
+		defer ccancel()
+		switch via {
+		case "disk":
+			ar, _, err = w.c.GetValidatedActionResult(ctx, hash)
+		case "grpc":
+			ar, err = w.srv.AC.GetActionResult(cctx, &pb.GetActionResultRequest{ActionDigest: &pb.Digest{Hash: hash, SizeBytes: 1},
+				InlineStdout: true, InlineStderr: true}) // (inlined fields requested inline: the server de-inlines nothing, i.e. writes nothing)
+			if err != nil {
+				ar, err = nil, nil // NotFound: a miss
+			}
+		case "http-get", "http-head":
+			var res lib.HTTPResult
+			if via == "http-get" {
+				res = w.srv.HTTPGet("/ac/"+hash, nil)
+			} else {
+				res = w.srv.HTTPHead("/ac/" + hash)
+			}
+			if res.Status == 200 {
+				// the referenced blobs are those of the value the model holds for the key
+				ar = &pb.ActionResult{}
+				if proto.Unmarshal(w.acVals[k], ar) != nil {
+					ar = nil
+				}
+			}
+		}
+		w.r.Count("getvalidated.via." + via)
 		w.judge(op, before, w.snap(), "", 0, false)
 		if err == nil && ar != nil {
 			w.touch(k)
@@ -515,12 +677,31 @@ func runC05(r *lib.Run) {
 		maxes := []int64{8 * lib.KiB, 16 * lib.KiB, 20 * lib.KiB, 64 * lib.KiB, 100 * lib.KiB, 512 * lib.KiB, 2 * lib.MiB, 6 * lib.MiB}
 		max := maxes[rng.IntN(len(maxes))]
 		dir := pool.Get()
-		c, _, err := lib.NewCache(lib.ServerOpts{Dir: dir, MaxSize: max, Storage: storage, ZstdImpl: []string{"go", "cgo"}[rng.IntN(2)]})
+		o := lib.ServerOpts{Dir: dir, MaxSize: max, Storage: storage, ZstdImpl: []string{"go", "cgo"}[rng.IntN(2)]}
+		var px *lib.FakeProxy
+		if rng.IntN(4) == 0 {
+			px = lib.NewFakeProxy(storage == "zstd")
+			o.Proxy = px
+			r.Count("histories.with-backend")
+		}
+		var c disk.Cache
+		var srv *lib.Server
+		var err error
+		if rng.IntN(4) == 0 {
+			o.RawHTTP = true
+			srv, err = lib.StartServer(o)
+			if err == nil {
+				c = srv.Cache
+			}
+			r.Count("histories.with-front-ends")
+		} else {
+			c, _, err = lib.NewCache(o)
+		}
 		if err != nil {
 			r.Inconclusive("cache start: " + err.Error())
 			return
 		}
-		w := &lruWorld{r: r, c: c, max: max, storage: storage, caseID: fmt.Sprintf("C05-s%d-h%d", r.Seed, i), acVals: map[string][]byte{}}
+		w := &lruWorld{r: r, c: c, max: max, storage: storage, caseID: fmt.Sprintf("C05-s%d-h%d", r.Seed, i), acVals: map[string][]byte{}, px: px, srv: srv}
 		cur = w
 		nk := 4 + rng.IntN(9)
 		sizes := []int64{1, 100, 4095, 4096, 4097, max / 16, max / 8, max / 8, max / 4, max / 4, max / 3, max / 2, max - 8192, max - 4096}
@@ -545,6 +726,9 @@ func runC05(r *lib.Run) {
 		}
 		cur = nil
 		lib.WaitEvictionsDrained(c, 0)
+		if srv != nil {
+			srv.Close()
+		}
 		pool.Put(dir)
 		if r.Violations() > 8 {
 			break
